@@ -259,7 +259,7 @@ Proof. intros. eapply folderish_in; [right; right; reflexivity|]. apply (is_pref
 Lemma tick_in_folders : forall c h, in_folders c h (tick_path c) = true.
 Proof. intros. eapply folderish_in; [right; right; reflexivity|]. apply (is_prefix_app mc_dir ["tags"; c_ff c; "tick.json"]). Qed.
 
-(* ------------------------------------------------------------------ the shape of every mutation of a run *)
+(* ------------------------------------------------------------------ the shape of every mutation of a run_core *)
 Definition folder_files (c : cfg) (h : hdr) (out : outcome) : list path :=
   cert_path c :: cert_tmp c :: load_path c :: tick_path c ::
   match out with Success o => map fst (out_files c h o) | _ => [] end.
@@ -314,8 +314,13 @@ Proof.
         destruct H as [<-|[<-|[]]];
           (split; [simpl; auto | split; [apply is_prefix_refl | split;
              [unfold load_path, tags_dir; simpl; discriminate | right; reflexivity]]]).
-      * destruct (o_tick o); [|contradiction]. right. left. exists (tick_path c).
-        destruct H as [<-|[<-|[]]];
+      * assert (Ht : In x [Create (tick_path c); Write (tick_path c) (Tag (tv ++ [(c_ns c ++ ":" ++ c_tick c)%string]))] \/
+                     In x [Create (tick_path c); Write (tick_path c) (Tag tv)]).
+        { destruct (o_tick o); [left; exact H|]. destruct (v_tick_refresh v); [|contradiction].
+          unfold tick_refresh_ops in H. destruct (file_at cur3 (tick_path c)) as [[b|vs]|]; try contradiction.
+          destruct (strs_eqb vs tv); [contradiction|]. right. exact H. }
+        right. left. exists (tick_path c).
+        destruct Ht as [[<-|[<-|[]]]|[<-|[<-|[]]]];
           (split; [simpl; auto | split; [apply is_prefix_refl | split;
              [unfold tick_path, tags_dir; simpl; discriminate | right; reflexivity]]]).
     + (* output files *)
@@ -367,9 +372,9 @@ Proof.
 Qed.
 
 Theorem run_shape : forall v c h out fault cur x,
-  In x (plan v c h out fault cur) -> shape_ok v c h out x.
+  In x (plan_core v c h out fault cur) -> shape_ok v c h out x.
 Proof.
-  intros v c h out fault cur x H. unfold plan, run in H.
+  intros v c h out fault cur x H. unfold plan_core, run_core in H.
   destruct out as [| | |o]; simpl in H; try contradiction.
   - (* FailLex *)
     destruct (is_dir cur (ns_dir c)); [destruct (is_file cur (cert_path c)); contradiction|].
